@@ -100,6 +100,11 @@ def guards_of(body):
                         cur = cur + [("pat", (mt["e"], sir.pat_str(back[0]["pat"])), True)]
                     elif len(div) == 1 and back:
                         cur = cur + [("pat", (mt["e"], sir.pat_str(div[0]["pat"])), False)]
+                elif mt is not None and mt.get("k") == "match":
+                    # some arms carry guards: an *unguarded* arm that leaves still tells that its pattern did not match afterwards
+                    for a in mt["arms"]:
+                        if a.get("guard") is None and _diverges(a["body"]) and a["pat"].get("k") != "p_wild":
+                            cur = cur + [("pat", (mt["e"], sir.pat_str(a["pat"])), False)]
             return
         if k == "if":
             c = n["cond"]
